@@ -11,7 +11,10 @@ Record obs := mkobs {
   o_refs : list row; o_checks : list row; o_views : list row; o_routines : list row;
   o_triggers : option (list row);
   o_show_tables : list row; o_show_triggers : option (list row);
-  o_show_columns : list (name * option (list row)); o_show_indexes : list (name * option (list row)) }.
+  o_show_columns : list (name * option (list row)); o_show_indexes : list (name * option (list row));
+  (* COLUMNS [schema; table; column; ordinal] and STATISTICS [schema; table; index; seq; column] of the two static
+     neighbour databases (da before, db2 after "db"), read unfiltered; SHOW CREATE TABLE's PRIMARY KEY part list *)
+  o_neighbours : list row; o_show_create_pk : list (name * option row) }.
 
 (* a history: statement, accepted by the engine?, listings afterwards *)
 Definition case : Type := list (op * bool * obs).
@@ -35,6 +38,13 @@ Definition obag_eqb (a b : option (list row)) : bool :=
 Definition olist_eqb (a b : option (list row)) : bool :=
   match a, b with Some x, Some y => rows_eqb x y | None, None => true | _, _ => false end.
 
+(* the neighbour databases never change: da.t0 (y0 INT NOT NULL PRIMARY KEY, y1 BIGINT), db2.t3 (z0 ... PRIMARY KEY, z1) *)
+Definition neighbour_rows : list row :=
+  [ [25697; 29744; 31024; 1]; [25697; 29744; 31025; 2]; [6578738; 29747; 31280; 1]; [6578738; 29747; 31281; 2];
+    [25697; 29744; PRIMARY; 1; 31024]; [6578738; 29747; PRIMARY; 1; 31280] ].
+Definition orow_eqb (a b : option row) : bool :=
+  match a, b with Some x, Some y => row_eqb x y | None, None => true | _, _ => false end.
+
 Definition view_only (c : cat) (n : name) : bool := has_view n c.
 
 (* the listings compared, numbered for diagnosis *)
@@ -53,7 +63,9 @@ Definition checks_of (c : cat) (o : obs) : list (N * bool) :=
     (12, obag_eqb (show_triggers_rows c) (o_show_triggers o));
     (* SHOW COLUMNS / INDEXES FROM <name>: compared for every name of the universe that is not a view name *)
     (13, forallb (fun p => view_only c (fst p) || olist_eqb (show_columns c (fst p)) (snd p)) (o_show_columns o));
-    (14, forallb (fun p => view_only c (fst p) || obag_eqb (show_indexes c (fst p)) (snd p)) (o_show_indexes o)) ].
+    (14, forallb (fun p => view_only c (fst p) || obag_eqb (show_indexes c (fst p)) (snd p)) (o_show_indexes o));
+    (15, bag_eqb neighbour_rows (o_neighbours o));
+    (16, forallb (fun p => view_only c (fst p) || orow_eqb (show_create_pk c (fst p)) (snd p)) (o_show_create_pk o)) ].
 
 Fixpoint steps_ok (c : cat) (l : case) : bool :=
   match l with
